@@ -195,9 +195,19 @@ package eni
 //@ func NetworkInterface.Dispose
 //@   trusted
 //@   ensures-assumed result >= 0
+//@ ghost c07idles int = 0
+//@ ghost c07dcalled bool = false
 //@ func Manager.syncPool
 //@   requires m != nil
-//@   loop 2 invariant toDel <= idles - m.maxIdles
+//@   at call Usage.Usage: ghost c07idles = c07idles + ite(result2 == nil, result0, 0)
+//@   at call NetworkInterface.Dispose: ghost c07dcalled = true
+//@   loop 1 invariant c07idles == idles
+//@   loop 2 invariant toDel <= idles - m.maxIdles && c07idles == idles
+//@   loop 2 invariant rangeindex == -1 ==> toDel > 0
+//@   loop 2 invariant rangeindex >= 0 ==> c07dcalled
+//@   # whenever more addresses are idle than maxIdles allows, the pass asks the interfaces to give some up — whatever the
+//@   # fill level of the node (the capacity test only gates growing)
+//@   ensures c07idles > m.maxIdles && len(m.networkInterfaces) > 0 ==> c07dcalled
 //@ guard call NetworkInterface.Dispose in syncPool: arg0 > 0 && arg0 <= idles - m.maxIdles
 //@ guard go Manager.syncPool$1 in syncPool: idles + inuses < m.total && i < m.minIdles - idles
 
